@@ -408,6 +408,102 @@ static int api_main (int argc, char **argv) {
   return rc;
 }
 
+/* ------------------------------------------------------------------ part "vital": destruct(master() / simul_efun) while the reload fails
+ * {syntax error in the file, error in create(), valid_object() refuses, loader without euid} x {caught, uncaught}; every element works
+ * in a private copy of the mudlib so that master.c / simul_efun.c can be broken and repaired between two steps */
+static const char *vfail_name[] = { "syntax-error", "error-in-create", "valid_object-refuses", "loader-without-euid" };
+static const char *vwhich_name[] = { "master", "simul_efun" };
+#define VITAL_EXPECT "({\"/master\",1,\"/simul_efun\",3,0,\"/master\",1,1})"
+
+static int copy_file (const char *from, const char *to, const char *append) {
+  FILE *a = fopen (from, "r"), *b = fopen (to, "w"); char buf[4096]; size_t n;
+  if (!a || !b) { if (a) fclose (a); if (b) fclose (b); return -1; }
+  while ((n = fread (buf, 1, sizeof buf, a)) > 0) fwrite (buf, 1, n, b);
+  if (append) fputs (append, b);
+  fclose (a); fclose (b);
+  return 0;
+}
+
+static void vital_elem1 (long idx) {
+  int which = (int) (idx / 8), fail = (int) ((idx / 2) % 4), caught = (int) (idx % 2);
+  char dir[PATH_MAX], cmd[PATH_MAX * 2 + 64], orig[PATH_MAX], file[64];
+  vm_snap s0, s1;
+  snprintf (vm_ctx_desc, sizeof vm_ctx_desc, "vital destruct(%s) reload-fails-by=%s %s", vwhich_name[which], vfail_name[fail], caught ? "under-catch" : "uncaught");
+  vx_obs ("%s", vm_ctx_desc);
+  snprintf (dir, sizeof dir, "%s/v%d", hx_scratch_dir (), (int) getpid ());
+  snprintf (cmd, sizeof cmd, "rm -rf '%s' && cp -r '%s/mudlib/vm' '%s'", dir, hx_verif_dir (), dir);
+  if (system (cmd) || chdir (dir)) { vm_fail ("C05:harness:vital-scratch", "cannot make the private mudlib copy %s", dir); return; }
+  snprintf (file, sizeof file, "%s.c", vwhich_name[which]);
+  snprintf (orig, sizeof orig, "%s/mudlib/vm/%s", hx_verif_dir (), file);
+  object_t *d = hx_load ("/c05/vital", 0);
+  if (!d) { vm_fail ("C05:harness:vital-object", "cannot load /c05/vital: %s", hx_last_error); return; }
+  add_ref (d, "harness");
+  /* break the reload */
+  if (fail == 0) { FILE *f = fopen (file, "w"); if (f) { fputs ("int broken( { return 1 }\n", f); fclose (f); } }
+  else if (fail == 1) copy_file (orig, file, "\nvoid create() { error(\"create of the new copy fails\\n\"); }\n");
+  else if (fail == 2) { copy_and_push_string ("valid_object"); push_number (0); safe_apply_master_ob ("set_policy", 2); }
+  safe_apply_master_ob ("clear_errors", 0);
+  object_t *m0 = master_ob, *se0 = simul_efun_ob;
+  vm_snap_take (&s0);
+  vm_ignore_fields = 0; vm_changed_fields = 0;
+  vm_hook_arm (0, VM_INJ_NONE, vw_ec_depth () + 1);
+  vm_noinj_name = "reload-error";
+  push_number (which); push_number (fail == 3);
+  svalue_t *sp0 = sp - 2;
+  svalue_t *r = hx_apply (d, caught ? "kill_c" : "kill_u", 2);
+  if (!r && sp > sp0) pop_n_elems ((size_t) (sp - sp0));     /* hx_apply saves its context after the arguments were pushed */
+  vm_hook_disarm ();
+  vm_snap_take (&s1);
+  vx_obs ("  -> %.300s %.200s", r ? hx_canon_s (r) : "ERROR", r ? "" : hx_last_error);
+  vx_count (0, 1);
+  char scope[120]; snprintf (scope, sizeof scope, "vital-reload:%s:%s", vwhich_name[which], caught ? "caught" : "uncaught");
+  if (vm_selftest == 5) s1.sp++;
+  vm_snap_diff (&s0, &s1, 0, 1, scope, vm_ctx_desc);
+  if (master_ob != m0 || simul_efun_ob != se0)
+    vx_obs ("  (the vital object was replaced: master %s, simul_efun %s)", master_ob != m0 ? "new" : "same", simul_efun_ob != se0 ? "new" : "same");
+  /* repair, then: names intact, master replaceable, probe */
+  copy_file (orig, file, 0);
+  if (fail == 2 && master_ob) { copy_and_push_string ("valid_object"); push_number (1); safe_apply_master_ob ("set_policy", 2); }
+  hx_apply (d, "repair", 0);
+  r = hx_apply (d, "check", 0);
+  char got[600]; snprintf (got, sizeof got, "%.590s", r ? hx_canon_s (r) : hx_last_error);
+  vx_obs ("  check -> %s", got);
+  if (vm_selftest == 6) got[3] ^= 1;
+  if (strcmp (got, VITAL_EXPECT)) {
+    char key[160]; snprintf (key, sizeof key, "C05:vital-object-not-as-before:%s:%s", vwhich_name[which], vfail_name[fail]);
+    vm_fail (key, "after the failed reload and the repair of the file: %.400s, expected %s [%s]", got, VITAL_EXPECT, vm_ctx_desc);
+  }
+  char pt[16384];
+  vm_clear_hooks ();
+  vm_probe (pt, sizeof pt);
+  if (strcmp (pt, ref_probe)) {
+    char tag[60], msg[400], key[120];
+    first_diff (ref_probe, pt, tag, sizeof tag, msg, sizeof msg);
+    snprintf (key, sizeof key, "C05:probe:%s", tag);
+    vm_fail (key, "probe transcript differs from a fresh driver: %s [%s]", msg, vm_ctx_desc);
+  }
+  if (chdir ("/") == 0) { snprintf (cmd, sizeof cmd, "rm -rf '%s'", dir); if (system (cmd)) {} }
+}
+static void vital_elem (long idx) {
+  snprintf (vm_ctx_desc, sizeof vm_ctx_desc, "vital destruct(%s) reload-fails-by=%s %s", vwhich_name[idx / 8], vfail_name[(idx / 2) % 4], idx % 2 ? "under-catch" : "uncaught");
+  vm_run_isolated (vital_elem1, idx);
+}
+static void vital_describe (long idx, char *buf, size_t len) {
+  snprintf (buf, len, "vital=%ld\ndestruct(%s) while its reload fails by %s, %s", idx, vwhich_name[idx / 8], vfail_name[(idx / 2) % 4], idx % 2 ? "under catch" : "uncaught");
+}
+static long vital_one = -1;
+static void vital_elem_one (long idx) { (void) idx; vital_elem (vital_one); }
+static int vital_main (int argc, char **argv) {
+  vx_count_name (0, "fault_raised"); vx_count_name (15, "failure_records_suppressed_as_duplicates");
+  vm_shared_init ();
+  vital_one = vx_opt_long ("vital", -1);
+  if (vital_one >= 0) vx_set_enum (1, vital_elem_one, vital_describe); else vx_set_enum (16, vital_elem, vital_describe);
+  fprintf (stderr, HNAME ": part=vital elements=%d\n", vital_one >= 0 ? 1 : 16);
+  int rc = vx_run (argc, argv, 0);
+  if (vx_opt ("out", 0)) { char kp[PATH_MAX]; snprintf (kp, sizeof kp, "%s.keys", vx_opt ("out", 0)); vm_write_key_totals (kp); }
+  return rc;
+}
+
 /* representatives of each frame class for the depth-3 pass */
 #define MINI "call,call_other,lfunp,catch,filter_fp,sort_fp,create_clone,m_object_name"
 #define CORE "call,inherited,call_other,lfunp,functional,efunp,boundfp,simul_efun,catch,filter_fp,sort_fp,map_mapping,create_load,create_clone,init_move,move_or_destruct,verb_string,m_valid_read,m_object_name"
@@ -460,6 +556,7 @@ int main (int argc, char **argv) {
   }
   if (vx_opt ("show-probe", 0)) fprintf (stderr, "%s", ref_probe);
   if (!strcmp (part, "api")) return api_main (argc, argv);
+  if (!strcmp (part, "vital")) return vital_main (argc, argv);
 
   const char *es = vx_opt ("elem", 0);
   if (es) {
